@@ -1,4 +1,24 @@
-import ZCV.Model.Matcher
+import ZCV.Model.Conv
+import ZCV.Lemmas.Except
 namespace ZCV.Props.C16
 open ZCV ZCV.Cfg
+
+/-- closing a section appends to the shared handler list exactly the entries of that section's own handler-bearing
+    items, in schema order, after everything appended before (in particular after the entries of the sections nested in
+    it, which were closed earlier) -/
+theorem C16_stop_appends_own_entries (st st' : LS) (ty : Str) (nm : Option Str) (child parent : Matcher) (below : List Matcher)
+    (hst : st.stack = child :: parent :: below) (h : lsStop st ty nm = .ok st') :
+    ∃ v hs, finishMatcher st.conv st.schema child = .ok (v, hs) ∧ st'.handlers = st.handlers ++ hs := by
+  unfold lsStop at h
+  rw [hst] at h
+  simp only [bind, Except.bind] at h
+  split at h
+  · simp at h
+  · rename_i r hr
+    obtain ⟨v, hs⟩ := r
+    split at h
+    · simp at h
+    · simp only [pure, Except.pure, Except.ok.injEq] at h
+      exact ⟨v, hs, hr, by rw [← h]⟩
+
 end ZCV.Props.C16
